@@ -535,7 +535,7 @@ func init() {
 			}
 			return 600, 5 * time.Minute
 		},
-		Gen: genC12, Exec: withSample(genC12, execC12), Shrink: shrinkC12, DeathSig: w3DeathSig("C12"),
+		Gen: withSchedKnobs(genC12), Exec: withSample(genC12, execC12), Shrink: shrinkC12, DeathSig: w3DeathSig("C12"),
 	})
 }
 
